@@ -82,6 +82,31 @@ theorem in_consumed_with_allowIn (e r : E) (hwe : wf e = true) (hee : isExprHead
   rw [hp] at h
   simpa using h
 
+/-- ASI, restricted production PostfixExpression (§7.9.1, §11.3 "no LineTerminator here"): when a line terminator stands
+    between a LeftHandSideExpression and `++`/`--`, the operator is NOT taken as a postfix operator — the parser returns
+    the operand and leaves the operator token for the next statement (where it is a prefix operator). -/
+theorem asi_postfix_restricted (e : E) (hw : wf e = true) (he : isExprHead e = true) (hr : relChain e = false)
+    (hp : 15 ≤ prec e) (inc : Bool) (rest : List Tok) :
+    ∃ n0, ∀ n, n0 ≤ n →
+      parsePostfix n (bare e true ++ { k := .p (if inc then .inc else .dec), nl := true } :: rest)
+        = some (e, { k := .p (if inc then .inc else .dec), nl := true } :: rest) := by
+  have hs : stop 15 ({ k := .p (if inc then .inc else .dec), nl := true } :: rest) := by
+    cases inc <;> (show stopB 15 (.p _) true = true) <;> decide
+  obtain ⟨n0, h⟩ := ((main2 e hw hr).1 he).1 15 (by omega) (by omega) _ hs
+  refine ⟨n0 + 1, fun n hn => ?_⟩
+  obtain ⟨m, rfl⟩ : ∃ m, n = m + 1 := ⟨n - 1, by omega⟩
+  have h' := h m (by omega)
+  dsimp only at h'
+  rw [pr_bare (by omega) hp, parseAt_15] at h'
+  rw [parsePostfix, h']
+  simp [hdNl]
+
+/-- … whereas without the line terminator the same tokens are the postfix expression (instance of `parse_print_at_full`). -/
+theorem postfix_without_newline (e : E) (hw : wf e = true) (he : isExprHead e = true) (hr : relChain e = false)
+    (ht : simpleTarget e = true) (inc : Bool) :
+    ∃ n0, ∀ n, n0 ≤ n → parseExpression n true (print (.post inc e) ++ [eofTok]) = some (.post inc e, [eofTok]) :=
+  parse_print (.post inc e) (by simp [wf, hw, he, ht]) rfl (by simpa [relChain] using hr)
+
 /-- non-vacuity: member/call/new chains mixed with operators -/
 example : let e : E := .asg .assign (.dot (.call (.new_ (.dot (.id "a") "b") (.acons (.num "1") (.acons (.bin .add (.id "x") (.id "y")) .anil))) .anil) "c")
                           (.bin .mul (.new_ (.new_ (.id "F") .noargs) .noargs) (.idx (.call (.id "f") (.acons (.bin .comma (.id "p") (.id "q")) .anil)) (.bin .in_ (.str "'k'") (.id "o"))))
